@@ -25,6 +25,7 @@ SHAPES = {
     "$(P)-two-writes": ("stdout", [("w", 1, b"a\n"), ("w", 1, b"b"), ("x", 0)]),
     "$(P)-one-line-rc3": ("stdout", [("w", 1, b"hello\n"), ("x", 3)]),
     "$(P)-empty": ("stdout", [("x", 0)]),
+    "!(P)-empty-rc3": ("object", [("x", 3)]),
     "!(P)-out-err": ("object", [("w", 1, b"o1\n"), ("w", 2, b"e1\n"), ("w", 1, b"o2\n"), ("x", 2)]),
     "!(P)-close-then-exit": ("object", [("w", 1, b"x\ny\n"), ("c", 1), ("x", 0)]),
     "$(P)-1025": ("stdout", [("w", 1, b"z" * 1025), ("w", 1, b"\n"), ("x", 0)]),
@@ -84,6 +85,9 @@ class CoPopen(subprocess.Popen):
 
     def __init__(self, *a, **k):
         super().__init__(*a, **k)
+        # Popen's own reaping (poll/wait) is traced too - xonsh reaps the same child out of band with
+        # os.waitpid - so its lock must be cooperative
+        self._waitpid_lock = pysched.CoLock()
         # spawning is made synchronous: the child's start-up time must not decide when its
         # announcement becomes visible to the puppeteer
         if _AFTER_SPAWN[0] is not None:
@@ -184,10 +188,11 @@ def _traced():
             if callable(f) and hasattr(f, "__code__") and name not in ("__repr__", "__str__") and not name.startswith("_signal") and not name.startswith("_restore") and "cbreak" not in name and "suspend" not in name and "pty" not in name:
                 fs.append(f)
     fs += [R.populate_fd_queue, P._read_all, P._drain_stdout, P.safe_readlines, P.safe_readable, J.proc_untraced_waitpid]
+    fs += [subprocess.Popen._internal_poll, subprocess.Popen._try_wait, subprocess.Popen._wait, subprocess.Popen._handle_exitstatus, subprocess.Popen.poll]
     codes = pysched.codes_of(*fs)
     return pysched.shared_lines(
         codes,
-        [r"\.closed\b", r"\.queue\b", r"is_alive|\.join\(|\.wait\(|\.poll\(", r"returncode", r"read_queue|readlines|iterqueue|read\(|_read_write", r"close_writer|close_reader|_write_fd|_read_fd|_lock", r"os\.read|os\.waitpid|queue\.(put|get)", r"\.start\(", r"time\.sleep|sleep\(", r"hasattr\(self", r"prevs_are_closed|\.lines\b|_raw_output|\.ended\b|yield|safe_fdclose|is_fully_read|suspended"],
+        [r"\.closed\b", r"\.queue\b", r"is_alive|\.join\(|\.wait\(|\.poll\(", r"returncode", r"read_queue|readlines|iterqueue|read\(|_read_write", r"close_writer|close_reader|_write_fd|_read_fd|_lock", r"os\.read|os\.waitpid|queue\.(put|get)", r"\.start\(", r"time\.sleep|sleep\(", r"hasattr\(self", r"prevs_are_closed|\.lines\b|_raw_output|\.ended\b|yield|safe_fdclose|is_fully_read|suspended", r"_waitpid\(|_waitpid_lock|_handle_exitstatus|sts\b"],
     )
 
 
